@@ -74,6 +74,8 @@ type TxnHist struct {
 	// withdrew the flag depends on where the call failed.
 	InsertUncertain map[string]bool
 	UsedAggressive  bool // the transaction used aggressive (fair) locking stages
+	// CommitWaitTSO: the commit-wait constraint the transaction was given (0: none): it must not commit at or below it
+	CommitWaitTSO uint64
 	// Asserted: key -> assertion flag put on the buffered key before Commit (Prog.Asserts restricted to the buffer)
 	Asserted map[string]string
 	Done     bool
@@ -368,7 +370,8 @@ func (w *World) runTxn(p *TxnProg, h *TxnHist) {
 		txn.SetCommitWaitUntilTSOTimeout(0)
 		w.Sim.Count("probe.commit-wait.lag")
 	case "near":
-		txn.SetCommitWaitUntilTSO(txn.StartTS() + uint64(5+p.ID%40)<<18)
+		h.CommitWaitTSO = txn.StartTS() + uint64(5+p.ID%40)<<18
+		txn.SetCommitWaitUntilTSO(h.CommitWaitTSO)
 		txn.SetCommitWaitUntilTSOTimeout(2 * time.Second)
 		w.Sim.Count("probe.commit-wait.near")
 	}
